@@ -27,6 +27,17 @@ use crate::error::Error;
 use super::{ExprType, FlagsState, GeneratorState};
 
 impl<'a> GeneratorState<'a> {
+    // The parser lets a function name through as an identifier (it is only meaningful in a call):
+    // looking it up as a variable is an error of the program, not of the compiler
+    fn variable_or_error(&self, name: &str, pos: usize) -> Result<&'a Variable, Error> {
+        match self.compiler_state.variables.get(name) {
+            Some(v) => Ok(v),
+            None => Err(self
+                .compiler_state
+                .syntax_error(&format!("{} is not a variable", name), pos)),
+        }
+    }
+
     fn purge_deferred_plusplus_and_savey(&mut self) -> Result<(), Error> {
         let def = self.deferred_plusplus.clone();
         self.deferred_plusplus.clear();
@@ -336,7 +347,7 @@ impl<'a> GeneratorState<'a> {
     fn generate_deref(&mut self, expr: &Expr, pos: usize) -> Result<ExprType, Error> {
         match expr {
             Expr::Identifier(var, sub) => {
-                let v = self.compiler_state.get_variable(var);
+                let v = self.variable_or_error(var, pos)?;
                 if v.var_type == VariableType::CharPtr {
                     let sub_output = self.generate_expr(sub, pos, false, false)?;
                     match sub_output {
@@ -383,7 +394,7 @@ impl<'a> GeneratorState<'a> {
     fn generate_addr(&mut self, expr: &Expr, pos: usize) -> Result<ExprType, Error> {
         match expr {
             Expr::Identifier(var, sub) => {
-                let v = self.compiler_state.get_variable(var);
+                let v = self.variable_or_error(var, pos)?;
                 if v.var_type == VariableType::Char {
                     let sub_output = self.generate_expr(sub, pos, false, false)?;
                     match sub_output {
@@ -420,7 +431,7 @@ impl<'a> GeneratorState<'a> {
                 }
             }
             Expr::Identifier(var, _) => {
-                let v = self.compiler_state.get_variable(var);
+                let v = self.variable_or_error(var, pos)?;
                 match v.var_type {
                     VariableType::CharPtr => {
                         if v.var_const {
@@ -709,7 +720,7 @@ impl<'a> GeneratorState<'a> {
                     }
                 }
                 variable => {
-                    let v = self.compiler_state.get_variable(variable);
+                    let v = self.variable_or_error(variable, pos)?;
                     let dummy = if let Expr::Nothing = **sub {
                         None
                     } else {
@@ -1072,7 +1083,7 @@ impl<'a> GeneratorState<'a> {
     fn generate_strobe_statement(&mut self, expr: &Expr, pos: usize) -> Result<(), Error> {
         match expr {
             Expr::Identifier(name, _) => {
-                let v = self.compiler_state.get_variable(name);
+                let v = self.variable_or_error(name, pos)?;
                 match v.var_type {
                     VariableType::CharPtr => {
                         // Strobes are protected, and thus cannot be optimized out
